@@ -152,6 +152,11 @@ def dispatch_oracle(ix: Index, scn: dict) -> list[Violation]:
                 # the internal request handlers exist from the moment the handshake completed: peer requests
                 # arriving during the hello/login exchange are answered too (no subscriber can exist yet)
                 expected_replies.append(({"PingRequest": "PingResponse", "GetTimeRequest": "GetTimeResponse", "DisconnectRequest": "DisconnectResponse"}[name], int(EPOCH + t) if name == "GetTimeRequest" else None, seq))
+                if any(name in ts for ts in active.values()):
+                    # a subscriber registered between the connect phases gets it as well: an ordinary delivery
+                    cur = {"kind": "ok", "name": name, "turn": turn, "type": mtype, "snapshot": [s_ for s_, ts in active.items() if name in ts], "cbs": [], "added": set(), "removed": set(), "writes": 0, "states": [], "fatals": []}
+                    if name == "DisconnectRequest":
+                        cur["in_cb_close"] = True
                 continue
             if d["state"] not in ("CONNECTED",):
                 continue
